@@ -681,6 +681,78 @@ func opBuy(g *G) bool {
 	return true
 }
 
+// opBuyAcrossMarkets buys 2-3 orders that belong to DIFFERENT markets (ask denoms) in one message:
+// each bid in its own ask denom (valid), or the later ones bid in the first order's denom (invalid).
+func opBuyAcrossMarkets(g *G) bool {
+	v := g.V()
+	os := g.orders(v)
+	if len(os) < 2 {
+		return false
+	}
+	first := os[g.R.Intn(len(os))]
+	picked := []*monitor.Order{first}
+	denoms := map[string]bool{}
+	if mk := v.Markets[first.Market]; mk != nil {
+		denoms[mk.Denom] = true
+	}
+	want := 2 + g.R.Intn(2)
+	for _, o := range os {
+		mk := v.Markets[o.Market]
+		if len(picked) >= want || mk == nil || denoms[mk.Denom] || o.Ask == nil || o.Qty.V == nil {
+			continue
+		}
+		denoms[mk.Denom] = true
+		picked = append(picked, o)
+	}
+	if len(picked) < 2 {
+		return false
+	}
+	buyer := -1
+	for u := 0; u < NumUsers; u++ {
+		okU := true
+		for _, o := range picked {
+			if idxOf(o.Seller) == u {
+				okU = false
+			}
+		}
+		if okU {
+			buyer = u
+			break
+		}
+	}
+	if buyer < 0 {
+		return false
+	}
+	wrong := g.R.Chance(1, 3)
+	m0 := v.Markets[first.Market]
+	var orders []*market.MsgBuyDirect_Order
+	for i, o := range picked {
+		mk := v.Markets[o.Market]
+		if mk == nil || o.Ask == nil || o.Qty.V == nil || m0 == nil {
+			return false
+		}
+		q := rat(fmtRat(new(big.Rat).Mul(o.Qty.V, big.NewRat(int64(1+g.R.Intn(100)), 100)), 6))
+		if q.Sign() == 0 {
+			q = new(big.Rat).Set(micro)
+		}
+		denom := mk.Denom
+		if wrong && i > 0 {
+			denom = m0.Denom // bid in the FIRST order's denom
+		}
+		fee := new(big.Int).Add(buyerFeeFloor(v, q, o.Ask), big.NewInt(1))
+		orders = append(orders, chain.BuyOrder(o.ID, fmtRat(q, 6), bigCoin(denom, o.Ask), o.DisableAutoRetire, g.jur(), "", bigCoin(denom, fee)))
+	}
+	note := fmt.Sprintf("buy %d orders of different markets in one message, each bid in its own ask denom", len(picked))
+	if wrong {
+		note = fmt.Sprintf("buy %d orders of different markets in one message, the later ones bid in the first order's denom %s", len(picked), m0.Denom)
+		g.bump(fmt.Sprintf("buy-across-markets:%d-orders:later-bid-in-first-denom", len(picked)))
+	} else {
+		g.bump(fmt.Sprintf("buy-across-markets:%d-orders:own-denoms", len(picked)))
+	}
+	g.Do(g.App.MsgBuyDirect(buyer, orders...), note)
+	return true
+}
+
 func opBuyMissing(g *G) bool {
 	v := g.V()
 	id := g.Rec.State().Sequences["SellOrder"]
